@@ -8,11 +8,32 @@ REPO_SRCS = ["bintree.c", "rbtree.c", "map.c", "common.c"]
 LEAN_TARGETS = ["Cstl.Tree.Props", "m_tree"]
 IMPORTS = ["Cstl.Tree.Props"]
 
+_T = "Cstl.Tree."
+
 THEOREMS = {
-    "C01": [],
-    "C02": [],
-    "C08": [],
-    "C15": [],
+    "C01": [_T + n for n in (
+        # binary tree
+        "btInsert_spec", "btInsertAt_find_eq", "find_found", "find_iff", "btErase_some", "btErase_none",
+        # red-black tree: rotations / recolouring preserve the in-order sequence
+        "rbInsert_inorder", "rbErase_inorder", "rbInsert_spec", "rbInsertAt_find_eq", "rbErase_some", "rbErase_none",
+        # traversal
+        "events_midleaf", "events_rev", "inorder_mirror", "events_count", "events_bracket",
+        "foreach_events", "foreach_once", "foreach_stop", "clear_spec", "clear_reinit",
+        # histories against the multiset specification
+        "btStep_refines", "rbStep_refines", "bt_run_refines", "rb_run_refines", "bt_badOp_only_if_held",
+    )],
+    "C02": [_T + n for n in (
+        "inv_iff_bal", "rbInsert_inv", "rbInsertAt_inv", "rbErase_inv", "sibling_exists",
+        "height_bound", "height_log_bound", "rbStep_inv", "run_inv", "run_no_segv", "run_height_bound",
+    )],
+    "C08": [_T + n for n in (
+        "mapInsert_existing", "mapInsert_fail", "mapInsert_new", "mapFind_spec", "mapEraseNode_spec",
+        "mapErase_some", "mapErase_none", "mapClear_spec", "mapSize_spec", "find_eq_absMap",
+        "mapStep_refines", "run_refines", "rep_size", "rep_live_iff",
+    )],
+    "C15": [_T + n for n in (
+        "clear_spec", "clear_reinit", "clearTrace_cbs", "clearTrace_no_touch_after_cb", "mapClear_spec",
+    )],
 }
 
 # ---------------------------------------------------------------------------
@@ -160,8 +181,33 @@ def check_events(evs, held, fwd, complete):
     return None
 
 
+ERASE_CASES = {}
+
+
+def _erase_case(t, eid):
+    """which case of the property text an erase of element `eid` in tree `t` is"""
+    parent = None
+    cur = t
+    stack = [(t, None)]
+    while stack:
+        n, par = stack.pop()
+        if n is None:
+            continue
+        if n["id"] == eid:
+            kids = (n["l"] is not None) + (n["r"] is not None)
+            if kids == 2:
+                c = "two-child/successor-is-right-child" if n["r"]["l"] is None else "two-child/successor-deeper"
+            else:
+                c = ("leaf", "one-child")[kids]
+            return c + ("/root" if par is None else "")
+        stack.append((n["l"], n))
+        stack.append((n["r"], n))
+    return "not-in-dump"
+
+
 def oracle_c01(script, c_lines):
     held = {"bt": {}, "rb": {}}
+    prev = {"bt": None, "rb": None}
     for i, op in enumerate(script):
         w = op.split()
         if w[0] == "map":
@@ -169,12 +215,14 @@ def oracle_c01(script, c_lines):
         if i >= len(c_lines):
             return "op %d '%s': no output from the implementation" % (i, op)
         line = c_lines[i]
+        if w[0] != "mode" and w[1] in ("insat", "insatr"):
+            return None     # arbitrary hints are outside the property's domain
+        if w[0] != "mode" and w[1] in ("ins", "insh") and int(w[2]) != 0 and int(w[2]) in held[w[0]]:
+            return None     # inserting an element that is held: outside the interface
         if line.startswith("STOP"):
             return "op %d '%s': implementation stopped with '%s'" % (i, op, line)
         if w[0] == "mode":
             continue
-        if w[1] == "insat":
-            return None     # arbitrary hints are outside the property's domain
         try:
             res, st = parse_line(line)
         except ValueError as e:
@@ -207,6 +255,9 @@ def oracle_c01(script, c_lines):
                 return pre + "erase returned %d but no held element has that key" % got
             if got in h:
                 del h[got]
+                if prev[w[0]] not in (None, "hashed"):
+                    c = w[0] + ":" + _erase_case(prev[w[0]], got)
+                    ERASE_CASES[c] = ERASE_CASES.get(c, 0) + 1
         elif o == "fe":
             try:
                 r, evs = _events(res)
@@ -240,6 +291,7 @@ def oracle_c01(script, c_lines):
             return pre + "parent link of node %s does not point back at its parent" % st["bad"]
         if st["n"] != len(h):
             return pre + "size %d, %d elements inserted and not removed" % (st["n"], len(h))
+        prev[w[0]] = st["tree"]
         if st["tree"] != "hashed":
             nodes = inorder(st["tree"])
             ids = sorted(n["id"] for n in nodes)
@@ -305,6 +357,8 @@ def oracle_c02(script, c_lines):
         if i >= len(c_lines):
             return "op %d '%s': no output from the implementation" % (i, op)
         line = c_lines[i]
+        if line == "STOP bad-op":
+            return None     # the script left the interface (element already in the tree): nothing to judge
         if line.startswith("STOP"):
             return "op %d '%s': implementation stopped with '%s'" % (i, op, line)
         try:
@@ -450,8 +504,14 @@ def oracle_c08(script, c_lines):
     return None
 
 
+OP_COUNTS = {}
+
+
 def oracle(prop, script, c_lines):
     """independent reading of the property on the implementation's output"""
+    for op in script:
+        k = " ".join(op.split()[:2])
+        OP_COUNTS[k] = OP_COUNTS.get(k, 0) + 1
     if prop == "C01":
         return oracle_c01(script, c_lines)
     if prop == "C02":
@@ -552,14 +612,13 @@ def random_tree_scripts(rng, cont, count, length, nkeys, maxlive, hashed, insat=
     """seeded histories on one tree with heavy duplication.  Element id 0 in an
     insert means "the lowest id not in the tree" (which equal element an erase
     removes is the implementation's choice, so the generator does not track
-    identities).  `hashed` histories print a digest per step and the full tree
+    identities; `insatr` names an arbitrary hint by its in-order rank).  `hashed` histories print a digest per step and the full tree
     on periodic `show` lines."""
     scripts = []
     for _ in range(count):
         sc = ["mode hash"] if hashed else []
         cnt = {}
         live = 0
-        sure = []       # ids certainly held (inserted explicitly, no erase of their key since)
         grow = True
         for step in range(length):
             if live >= maxlive:
@@ -571,8 +630,8 @@ def random_tree_scripts(rng, cont, count, length, nkeys, maxlive, hashed, insat=
             if r < p_ins and live < maxlive:
                 k = rng.randrange(nkeys)
                 x = rng.random()
-                if insat and sure and x < 0.15:
-                    sc.append("%s insat 0 %d %d" % (cont, k, rng.choice(sure)[0]))
+                if insat and live > 0 and x < 0.15:
+                    sc.append("%s insatr %d %d" % (cont, k, rng.randrange(live)))
                 elif x < 0.40:
                     sc.append("%s insh 0 %d" % (cont, k))
                 else:
@@ -587,7 +646,6 @@ def random_tree_scripts(rng, cont, count, length, nkeys, maxlive, hashed, insat=
                 sc.append("%s clear" % cont)
                 cnt = {}
                 live = 0
-                sure = []
             elif r < p_ins + 0.12 and hashed:
                 sc.append("%s show" % cont)
             else:
@@ -596,7 +654,6 @@ def random_tree_scripts(rng, cont, count, length, nkeys, maxlive, hashed, insat=
                 if cnt.get(k, 0) > 0:
                     cnt[k] -= 1
                     live -= 1
-                sure = [x for x in sure if x[1] != k]
         sc.append("%s show" % cont)
         if live <= 200:
             sc += ["%s fe fwd -1" % cont, "%s fe rev -1" % cont]
@@ -634,17 +691,21 @@ def random_map_scripts(rng, count, length, nkeys, hashed):
 # the three checks (tools/props/C01.py, C02.py, C08.py call these)
 
 SCOPE = {
-    # property -> tier -> parameters
-    "C01": {"quick": dict(nmax=4, keys=(0, 1, 2), depth=12, states=4000, rnd_full=(12, 250, 6, 24),
-                          rnd_hash=(4, 2500, 8, 200)),
-            "thorough": dict(nmax=6, keys=(0, 1, 2), depth=16, states=60000, rnd_full=(60, 400, 6, 40),
-                             rnd_hash=(12, 20000, 8, 200))},
-    "C02": {"quick": dict(nmax=6, keys=(0, 1, 2), depth=14, states=4000, rnd_full=(12, 300, 4, 40),
-                          rnd_hash=(4, 3000, 5, 500)),
-            "thorough": dict(nmax=7, keys=(0, 1, 2), depth=18, states=60000, rnd_full=(60, 500, 4, 60),
-                             rnd_hash=(12, 20000, 5, 500))},
-    "C08": {"quick": dict(nkeys=3, depth=10, states=3000, rnd_full=(16, 300, 6), rnd_hash=(4, 4000, 24)),
-            "thorough": dict(nkeys=4, depth=12, states=40000, rnd_full=(80, 500, 8), rnd_hash=(10, 50000, 30))},
+    # property -> tier -> closures: (container, max elements, keys); random: (scripts, length, keys, max live)
+    "C01": {"quick": dict(closures=[("bt", 6, (0, 1, 2)), ("rb", 6, (0, 1, 2))], depth=20, states=100000,
+                          rnd_full=(12, 300, 6, 30), rnd_hash=(4, 3000, 8, 200)),
+            "thorough": dict(closures=[("bt", 7, (0, 1, 2)), ("bt", 6, (0, 1, 2, 3)), ("rb", 8, (0, 1, 2)),
+                                       ("rb", 7, (0, 1, 2, 3))], depth=30, states=400000,
+                             rnd_full=(80, 400, 6, 40), rnd_hash=(16, 20000, 8, 200))},
+    "C02": {"quick": dict(closures=[("rb", 7, (0, 1, 2))], depth=20, states=100000,
+                          rnd_full=(12, 300, 4, 40), rnd_hash=(4, 4000, 5, 500)),
+            "thorough": dict(closures=[("rb", 8, (0, 1, 2)), ("rb", 7, (0, 1, 2, 3))], depth=30, states=400000,
+                             rnd_full=(80, 500, 4, 60), rnd_hash=(16, 20000, 5, 500))},
+    # closures: (keys, whether states distinguish the stored key/value pointers)
+    "C08": {"quick": dict(closures=[(4, False), (3, True)], depth=14, states=100000, rnd_full=(16, 300, 6),
+                          rnd_hash=(4, 4000, 24)),
+            "thorough": dict(closures=[(5, False), (4, True)], depth=16, states=400000, rnd_full=(80, 500, 8),
+                             rnd_hash=(10, 50000, 30))},
 }
 
 
@@ -676,34 +737,41 @@ def run_check(chk, prop):
     closed = True
     if prop in ("C01", "C02"):
         conts = ("bt", "rb") if prop == "C01" else ("rb",)
-        for c in conts:
-            ok = vlib.closure(chk, NAME, c_exe, m_exe, [], tree_alphabet(c, p["keys"], p["nmax"]),
+        for (c, nmax, keys) in p["closures"]:
+            ok = vlib.closure(chk, NAME, c_exe, m_exe, [], tree_alphabet(c, keys, nmax),
                               p["depth"], p["states"], orc, state_of=lambda l: strip_ids(l.split("|", 1)[1]) if "|" in l else l)
             closed = closed and ok
-        chk.extra["scope"] = ("closure over every shape%s reachable with <= %d elements over keys %s (states taken up to "
-                              "renaming of element identities): ins, hinted ins (hint from find), find, erase of every key "
-                              "and of an absent key, foreach fwd/rev stopping at every visit, clear; closed=%s"
-                              % ("/colouring" if prop == "C02" else " (bt) and shape+colouring (rb)", p["nmax"],
-                                 list(p["keys"]), closed))
+        chk.extra["scope"] = ("closure over every shape (bt) / shape+colouring (rb) reachable within %s = (container, max "
+                              "elements, keys); states taken up to renaming of element identities; from every state: ins, "
+                              "hinted ins (hint from find) of every key, find and erase of every key and of an absent key, "
+                              "foreach fwd/rev stopping at every visit, clear; closed=%s" % (p["closures"], closed))
         rnd = []
         for c in conts:
             n, ln, nk, ml = p["rnd_full"]
             rnd += random_tree_scripts(chk.rng, c, n, ln, nk, ml, False, insat=(prop == "C02"))
+            if prop == "C01":
+                # arbitrary hints: outside the property (the oracle stops judging), inside the correspondence
+                rnd += random_tree_scripts(chk.rng, c, max(2, n // 4), ln, nk, ml, False, insat=True)
             n, ln, nk, ml = p["rnd_hash"]
             rnd += random_tree_scripts(chk.rng, c, n, ln, nk, ml, True)
     else:
-        full = chk.tier == "thorough"
-        closed = vlib.closure(chk, NAME, c_exe, m_exe, [], map_alphabet(p["nkeys"]), p["depth"], p["states"], orc,
+        for (nkeys, full) in p["closures"]:
+            ok = vlib.closure(chk, NAME, c_exe, m_exe, [], map_alphabet(nkeys), p["depth"], p["states"], orc,
                               state_of=lambda l: (strip_ids if full else strip_payload)(l.split("|", 1)[1]) if "|" in l else l)
-        chk.extra["scope"] = ("closure over every map reachable with %d keys x 2 key objects x 2 values (states up to renaming "
-                              "of node blocks%s): insert with malloc ok/failing, find, erase, erase by iterator, clear with and "
-                              "without callback; closed=%s" % (p["nkeys"], "" if full else " and stored pointers", closed))
+            closed = closed and ok
+        chk.extra["scope"] = ("closure over every map reachable within %s = (keys, states distinguish stored pointers); 2 key "
+                              "objects per key x 2 values; states up to renaming of node blocks; from every state: insert of "
+                              "every key object / value with malloc succeeding and failing, find, erase, erase by iterator of "
+                              "every key and an absent key, clear with and without callback; closed=%s" % (p["closures"], closed))
         n, ln, nk = p["rnd_full"]
         rnd = random_map_scripts(chk.rng, n, ln, nk, False)
         n, ln, nk = p["rnd_hash"]
         rnd += random_map_scripts(chk.rng, n, ln, nk, True)
     chk.exhaustive = closed
     vlib.run_scripts(chk, me, c_exe, m_exe, rnd, orc)
+    if prop == "C01":
+        chk.extra["erase_cases_reached"] = dict(sorted(ERASE_CASES.items()))
+    chk.extra["operations_by_container"] = dict(sorted(OP_COUNTS.items()))
     if chk.mismatches and not chk.oracle_failures:
         # model and implementation differ but the property held on everything
         # explored: minimise, then search the neighbourhood with the oracle
